@@ -125,6 +125,11 @@ where
                 world.register::<T>();
                 world.register::<T>();
             }
+            "preinsert" => {
+                // the storage is put into the world as a plain resource first, then registered
+                world.insert(specs::storage::MaskedStorage::<T>::new(Default::default()));
+                world.register::<T>();
+            }
             _ => panic!("harness: unknown registration method {}", how),
         }
         if !late {
